@@ -12,7 +12,7 @@
   * The parser is precedence climbing over the set operators, all %left, with the levels of the table regenerated from
     parser.y (UNION = EXCEPT < INTERSECT), a SELECT operand being read by `Clause.parseSelect`; everything is fuelled
     (`Query` ↔ `SetTree` ↔ `Withs` are mutually recursive through parenthesised queries and WITH).
-  Not modelled yet (by correspondence only): INTO, the FETCH form of LIMIT, sub-queries in FROM and in expressions, LATERAL.
+  Not modelled here: INTO, the FETCH form of LIMIT, LATERAL; sub-queries as values and as tables of FROM: Model/SubQuery.lean.
 -/
 import Csvq.Model.Clause
 namespace Csvq.Query
